@@ -144,6 +144,26 @@ HARMLESS = [
         ("                if not waiter.cancelled() or _being_cancelled():\n                    raise",
          "                foreign = waiter.cancelled()\n                mine = _being_cancelled()\n                if mine or not foreign:\n                    raise"),
     ], ['C05', 'C06']),
+    ('cache: computing caller re-reads its entry, falling back to the value it computed', 'aiuti/asyncio.py', [
+        ("                            del events[key]\n                return result",
+         "                            del events[key]\n                try:\n                    return _cache[key]\n                except KeyError:\n                    return result"),
+    ], ['C01', 'C06', 'C14']),
+    ('filelock: the busy lock handled as BlockingIOError first, everything closed', 'aiuti/filelock.py', [
+        ("        except (IOError, OSError):\n            os.close(fd)",
+         "        except BlockingIOError:\n            os.close(fd)\n        except OSError:\n            os.close(fd)"),
+    ], ['C12', 'C13', 'C02']),
+    ('gather_excs: nothing to gather for an empty sequence', 'aiuti/asyncio.py', [
+        ("    for res in await aio.gather(*aws, return_exceptions=True):",
+         "    if isinstance(aws, (list, tuple)) and not aws:\n        return\n    for res in await aio.gather(*aws, return_exceptions=True):"),
+    ], ['C20']),
+    ('buffer: _run_func with the failure handling written the other way round', 'aiuti/asyncio.py', [
+        ("            if _being_cancelled():  # Never swallow our cancellation\n                raise\n            logging.exception(\"Failed to run %s, retrying\", self.func)\n            return False",
+         "            if not _being_cancelled():\n                logging.exception(\"Failed to run %s, retrying\", self.func)\n                return False\n            raise"),
+    ], ['C03', 'C07', 'C08']),
+    ('batcher: _forget with its branches swapped', 'aiuti/asyncio.py', [
+        ("        if self.retention_timeout > 0:\n            self._loop.call_later(\n                self.retention_timeout,\n                self._retention_cache.pop,\n                key,\n            )\n        else:\n            del self._retention_cache[key]",
+         "        if not self.retention_timeout > 0:\n            del self._retention_cache[key]\n        else:\n            self._loop.call_later(\n                self.retention_timeout,\n                self._retention_cache.pop,\n                key,\n            )"),
+    ], ['C11', 'C09', 'C15']),
     ('gather_excs: loop variable renamed', 'aiuti/asyncio.py', [
         ("    for res in await aio.gather(*aws, return_exceptions=True):\n        if isinstance(res, only):\n            yield res",
          "    outcomes = await aio.gather(*aws, return_exceptions=True)\n    for outcome in outcomes:\n        if isinstance(outcome, only):\n            yield outcome"),
